@@ -272,9 +272,19 @@ pub fn hostile_names(seed: u64) -> Plan {
         let at = h.usize_below(g.files.len() + 1);
         g.files.insert(at, FileSpec { path: format!(".pad/{}", h.below(1000)), len: 0 });
     }
+    // a torrent of empty files only: no pieces at all (the download is complete before it starts)
+    if !g.single && Rng64::sub(seed, "hostile-empty").chance(1, 15) {
+        for f in g.files.iter_mut() {
+            f.len = 0;
+        }
+    }
     let n = g.pieces();
     let mut p = base_plan("hostile-names", seed, g);
     p.peers.push(base_peer(0, n));
+    if n == 0 {
+        // nothing to fetch: the peer leaves, and the client finds itself complete
+        p.peers[0].script.push(step(When::At(200), Act::CloseFin));
+    }
     good_tracker(&mut p, 1);
     p.deadline_ms = 3_000;
     p.linger_ms = 500;
@@ -1800,7 +1810,9 @@ pub fn choking(seed: u64) -> Plan {
 
 pub fn tracker_faults(seed: u64) -> Plan {
     let mut r = Rng64::sub(seed, "tracker-faults");
-    let g = simple_geometry(64, 64 * r.range(1, 4));
+    // (a short last piece in half of the runs: what is left is then not a multiple of anything)
+    let short = Rng64::sub(seed, "tracker-short-last").chance(1, 2);
+    let g = simple_geometry(64, 64 * r.range(1, 4) - if short { Rng64::sub(seed, "tracker-short-by").range(1, 63) } else { 0 });
     let n = g.pieces();
     let mut p = base_plan("tracker-faults", seed, g);
     let k = r.range(1, 6) as usize;
@@ -1976,9 +1988,19 @@ pub fn tracker_faults(seed: u64) -> Plan {
     }
     // re-announce: every listed peer leaves, the client has to ask the tracker again
     if !partial && (flapping || r.chance(1, 4)) {
-        for peer in p.peers.iter_mut().take(k) {
-            peer.unchoke = Unchoke::Never;
-            peer.script.push(step(When::At(r.range(100, 3000)), Act::CloseFin));
+        // either nothing was downloaded when they go, or each of them served a block or two
+        let served = Rng64::sub(seed, "tracker-leave-after-serving").chance(1, 2);
+        for (j, peer) in p.peers.iter_mut().take(k).enumerate() {
+            if served {
+                let mut h = Rng64::sub(seed ^ (j as u64 + 1), "tracker-leave-after-serving-plan");
+                peer.answer.delay_min = h.range(0, 40);
+                peer.answer.delay_max = peer.answer.delay_min;
+                peer.script.push(step(When::AfterTxBlocks { count: h.range(1, 2) as u32, plus: h.range(1, 30) }, Act::CloseFin));
+                peer.script.push(step(When::At(h.range(2_000, 4_000)), Act::CloseFin));
+            } else {
+                peer.unchoke = Unchoke::Never;
+                peer.script.push(step(When::At(r.range(100, 3000)), Act::CloseFin));
+            }
         }
     }
     p.deadline_ms = total_ms + 14_000;
